@@ -92,6 +92,9 @@ pub struct Node {
 
 pub const CONTAINERS: [&[u8; 4]; 11] = [b"moov", b"trak", b"mdia", b"minf", b"stbl", b"dinf", b"edts", b"mvex", b"moof", b"traf", b"udta"];
 
+/// Containers whose children follow a fixed-size prefix (version/flags/counts or sample-entry fields).
+pub const PREFIXED: [(&[u8; 4], usize); 7] = [(b"stsd", 8), (b"dref", 8), (b"avc1", 78), (b"hev1", 78), (b"vp09", 78), (b"mp4a", 28), (b"meta", 4)];
+
 /// Parse `data` (the bytes of consecutive boxes located at absolute position `base`) into a tree.
 /// Containers must be tiled exactly by their children.
 pub fn tree(data: &[u8], base: u64) -> Result<Vec<Node>, String> {
@@ -118,6 +121,11 @@ pub fn tree(data: &[u8], base: u64) -> Result<Vec<Node>, String> {
         let payload = &data[p + header..p + size];
         let kids = if CONTAINERS.iter().any(|c| **c == cc) {
             tree(payload, base + (p + header) as u64).map_err(|e| format!("in {:?}: {}", String::from_utf8_lossy(&cc), e))?
+        } else if let Some((_, pre)) = PREFIXED.iter().find(|(c, _)| **c == cc) {
+            if payload.len() < *pre {
+                return Err(format!("box {:?} at {} is shorter than its fixed fields ({} < {})", String::from_utf8_lossy(&cc), base + p as u64, payload.len(), pre));
+            }
+            tree(&payload[*pre..], base + (p + header + pre) as u64).map_err(|e| format!("in {:?}: {}", String::from_utf8_lossy(&cc), e))?
         } else {
             vec![]
         };
